@@ -222,10 +222,45 @@ def inject(r, prog):
     return []
 
 
+TWIN_BODIES = [
+    # (rule tag, lines with {p} = per-file name prefix of equal length, 0-based index of the line the diagnostic is reported at)
+    ('error-field', ['{p}_err = error {{ oops; }}', '{p}_rec = record {{', '    a: i32;', '    bad: {p}_err;', '}}'], 3),
+    ('interface-field', ['{p}_ifc = interface +cpp {{ m(); }}', '{p}_rec = record {{', '    bad: {p}_ifc;', '}}'], 2),
+    ('ord-collection', ['{p}_rec = record {{', '    a: i32;', '    bad: list<i32>;', '}} deriving(ord)'], 2),
+    ('error-return', ['{p}_err = error {{ oops; }}', '{p}_ifc = interface +cpp {{', '    good();', '    bad() -> {p}_err;', '}}'], 3),
+    ('error-param', ['{p}_err = error {{ oops; }}', '{p}_ifc = interface +cpp {{', '    bad(e: {p}_err);', '}}'], 2),
+    ('throws-non-error', ['{p}_rec = record {{ a: i32; }}', '{p}_ifc = interface +cpp {{', '    bad() throws {p}_rec;', '}}'], 2),
+    ('static-and-const', ['{p}_ifc = interface +cpp {{', '    ok();', '    static const bad();', '}}'], 2),
+    ('bad-deriving', ['{p}_rec = record {{', '    a: i32;', '}} deriving(nonsense)'], 2),
+]
+
+
+def twin_case(r):
+    """The same violation at the SAME line and column range in two (or three) files of one program: root imports twin(s); every file must get
+    its own positioned diagnostic.  The texts differ only in the (equally long) names and in the first line."""
+    k = r.choice([1, 1, 2])
+    bodies = r.sample(TWIN_BODIES, r.randint(1, 3))
+    names = ['aa', 'bb', 'cc'][:k + 1]
+    files, exp = {}, []
+    for fi, pfx in enumerate(names):
+        fname = 'root.djinni' if fi == 0 else 'twin%d.djinni' % fi
+        # line 1 of the root holds the imports, line 1 of a twin holds a doc comment for its first declaration
+        lines = [' '.join('@import "twin%d.djinni"' % j for j in range(1, k + 1))] if fi == 0 else ['# twin file %d' % fi]
+        for tag, body, at in bodies:
+            exp.append((tag, fname, {'_line': len(lines) + at + 1}))
+            lines += [ln.format(p=pfx + tag.replace('-', '_')[:6]) for ln in body]
+        files[fname] = '\n'.join(lines) + '\n'
+    return files, exp
+
+
 def run(ctx):
     r = random.Random(ctx.rng.random())
     n = ctx.n(80, 700)
     cases, meta = [], []
+    for i in range(ctx.n(12, 80)):
+        files, exp = twin_case(r)
+        cases.append({'files': files, 'root': 'root.djinni', 'options': {'generate': dict(FULL)}})
+        meta.append(({'root': 'root.djinni'}, exp))
     for i in range(n):
         g = gen_idl.Gen(r, max_decls=r.choice([3, 6, 9]), p_comment=0.0, multi_file=0.35)
         p = g.program()
@@ -239,7 +274,8 @@ def run(ctx):
     mism, obs = kfront.run(ctx, 'c05', cases, parts=('errors',))
     if obs is None:
         return
-    dist = {'accepted': 0, 'rejected': 0, 'injected': {}, 'multi_violation': 0, 'in_imported_file': 0}
+    dist = {'accepted': 0, 'rejected': 0, 'injected': {}, 'multi_violation': 0, 'in_imported_file': 0,
+            'same_position_in_several_files': sum(1 for p, _ in meta if set(p) == {'root'})}
     for (p, exp), c, o in zip(meta, cases, obs):
         want = {(tag, f, d.get('_line')) for tag, f, d in exp}
         for tag, f, d in exp:
@@ -269,4 +305,5 @@ def run(ctx):
     ctx.add_corr('K-front/diagnostics', len(cases), sum(1 for _, e in meta if e), mm, [{'files': cases[1]['files'], 'injected': [[t, f] for t, f, d in meta[1][1]]}], dist,
                  'well-typed programs with 0-3 injected rule violations (18 rules: field/param/return/throws kinds, static/main/const, ord '
                  'collections, deriving names, flag modifiers, targets, generic arity, unknown types) at a random member index of a random '
-                 'existing or new declaration at namespace depth 0-3, in the root or an imported file; non-trivial = at least one violation')
+                 'existing or new declaration at namespace depth 0-3, in the root or an imported file; plus twin programs: the same violation at the same '
+                 'line/column range in the root and in one or two imported files; non-trivial = at least one violation')
